@@ -233,7 +233,11 @@ def line_of(init, ops):
 
 
 # ------------------------------------------------------------------ generators
-def gen_init(rng, n=None):
+def gen_init(rng, n=None, big=False):
+    if big:   # magnitudes beyond 2^53 ps: t0 and/or Δ not representable in binary64
+        t0 = rng.choice([2**53 + 1, -(2**53) - 1, 2**55 + 3, 5])
+        dt = rng.choice([3, 2**53 + 1, 2**54 + 2, 7]) if abs(t0) > 100 else 2**53 + 1
+        return ('ps', t0, dt, n if n is not None else rng.randint(1, 5))
     unit = rng.choice(UNITS)
     f = FACTOR[unit]
     t0 = rng.choice([0, 0, 1, 5, -3, -1, 10, -12, 7]) * f
@@ -248,14 +252,29 @@ def concretise(rng, kind, a):
     f = FACTOR[unit]
     room = abs(t0) + (n + 2) * abs(dt) < LIM // 64
     if kind in ('as', 'ss'):
-        form = rng.choice(['i', 'i', 'n', 't'])
+        form = rng.choice(['i', 'i', 'n', 't', 'ax'])
+        if form == 'ax':   # derived from the axis itself: exactly ±Δ, ±t0, ±(n-1)Δ
+            v = rng.choice([dt, -dt, t0, -t0, (n - 1) * dt, -n * dt, 1, -1])
+            return (kind, 't', v if abs(v) < LIM // 64 else 0, 'ps')
         if form == 't':
             u2 = rng.choice(UNITS)
             return (kind, 't', rng.randint(-9, 9) * FACTOR[u2] if room else 0, u2)
         return (kind, form, rng.randint(-9, 9) if room else 0)
     if kind in ('ar', 'sr'):
         sgn = 1 if kind == 'ar' else -1
-        form = rng.choice(['u', 'l', 'a64', 'a32', 't', 'u'])
+        form = rng.choice(['u', 'l', 'a64', 'a32', 't', 'u', 'ax'])
+        if form == 'ax' and n >= 1 and room:
+            # the axis itself, its negative, or a ramp whose step cancels the interval (Δ' = 0)
+            w = rng.choice(['self', 'neg', 'cancel', 'cancel'])
+            if w == 'self':
+                vals = [t0 + i * dt for i in range(n)]
+            elif w == 'neg':
+                vals = [-(t0 + i * dt) for i in range(n)]
+            else:
+                vals = [5 - sgn * i * dt for i in range(n)]
+            return (kind, 't', vals, None, 'ps')
+        if form == 'ax':
+            form = 'a64'
         if n == 0 and form in ('u', 't'):
             form = 'a64'    # an empty time object cannot even be constructed
         if form in ('u', 't'):
@@ -281,17 +300,17 @@ def concretise(rng, kind, a):
     if kind == 'mu':
         if not room:
             return ('mu', 1)
-        return ('mu', rng.choice([2, 3, 2, 1, 5, -1, 0]))
+        return ('mu', rng.choice([2, 3, 2, 1, 5, -1, -1, 0, -2]))
     if kind == 'dv':
         c = rng.random()
         if c < 0.55:   # an exact divisor of both t0 and dt (besides 1 when possible)
             import math
             g = math.gcd(abs(t0), abs(dt)) or 1
-            cand = [q for q in (2, 3, 4, 5, 6, 10, 1000, -2) if g % q == 0] or [1]
+            cand = [q for q in (2, 3, 4, 5, 6, 10, 1000, -2, -1, g, -g) if g % q == 0] or [1]
             return ('dv', rng.choice(cand))
-        return ('dv', rng.choice([2, 3, 7, 0, 1, 11]))
+        return ('dv', rng.choice([2, 3, 7, 0, 1, 11, -1, -3]))
     if kind == 'sl':
-        c = rng.choice([1, 2, 2, 3, -1, -2, 1, 0 if rng.random() < 0.3 else 2])
+        c = rng.choice([1, 2, 2, 3, -1, -2, -3, 1, max(n, 1), -max(n, 1), n + 1, 0 if rng.random() < 0.3 else 2])
         pick = lambda: rng.choice([None, None, 0, 1, 2, 3, -1, -2, n, n + 2, -n - 1, n // 2])
         return ('sl', pick(), pick(), c)
     if kind == 'cp':
@@ -368,7 +387,7 @@ def cases(rng, tier, seed):
         out.append(make_case(init, ops))
     for depth, naxes in plan:
         for i in range(naxes):
-            init = gen_init(rng, n=[4, 1, 2, 8, 3][i] if i < 5 else None)
+            init = gen_init(rng, n=[4, 1, 2, 8, 3][i] if i < 5 else None, big=(i == 4 or i % 6 == 5))
             for kinds in itertools.product(KINDS, repeat=depth):
                 out.append(build_case(rng, init, kinds))
     return out
@@ -446,6 +465,8 @@ def judge(init, ops, steps=None):
             name += '-inexact'
         elif op[0] == 'sl' and op[3] == 0:
             name += '-step0'
+        elif op[0] == 'cv' and abs(ab[i - 1][0][1]) >= 2**52:
+            name += '-interval-beyond-2^52'
         sym = []
         accepted = (oc == 'ok')
         if acc is None:
@@ -476,6 +497,10 @@ def judge(init, ops, steps=None):
                 break
         if sym:
             return ('%s/%s' % (name, sym_key(sym, name)), describe(init, ops, i, oc, axes, a, sym), i)
+        if op[0] in ('ar', 'sr') and accepted and a[1] == 0 and ab[i - 1][0][1] != 0:
+            # the ramp cancels the interval: all samples coincide and no sampling rate describes them
+            return (name + '-collapse/accepted-zero-interval',
+                    describe(init, ops, i, oc, axes, a, ['interval becomes 0; the rate attribute (%r Hz) cannot describe it' % parse_axis(axes[0])['rate']]), i)
         prev_axes = axes
     return None
 
@@ -527,7 +552,7 @@ def oracle(rng, tier, seed, focus, cases=None):
         r = judge(init, ops)
         if r:
             key, what, i = r
-            fails.append(Failure(key, what, {'init': list(init), 'ops': [list(o) for o in ops[:i]]}, case=c))
+            fails.append(Failure(key, what, {'key': key, 'init': list(init), 'ops': [list(o) for o in ops[:i]]}, case=c))
     cur = sum(1 for c in (cases or []) if c.model and norm_outcomes(c.impl) == norm_outcomes(c.model.split(' ## ')[-1]))
     fix = sum(1 for c in (cases or []) if c.model and cmp_fixed(c.impl, c.model))
     return fails, {'judged': n, 'failed': len(fails), 'distinct_keys': len({f.key for f in fails}), 'focus': len(focus),
@@ -535,9 +560,12 @@ def oracle(rng, tier, seed, focus, cases=None):
 
 
 def replay(d):
+    """re-run the recorded history on the current tree; it fails when the recorded symptom
+    reproduces, or when the history fails in any way that is not a recorded finding"""
+    import common
     init = tuple(d['init'])
     ops = [tuple(o) for o in d['ops']]
     r = judge(init, ops)
-    if r:
+    if r and (r[0] == d.get('key') or not common.match_known(r[0], common.load_findings(PID))):
         return Failure(r[0], r[1], d)
     return None
